@@ -126,7 +126,7 @@ def check_C19(tier):
             chk.sample({"history": rec["ev"]})
     chk.cov["rule"] = ("TLC explores every history of 2 registry operations (and simulated histories of 3) over import of a module, run-time definition of a command class in a module "
                        "outside every library (incl. one whose name has a requested library's name as string prefix), and Program construction for every single library and ordered pair among "
-                       "vlib_a, vlib_ab (prefix-related), vlib_a.sub (sub-package), vlib_c (same command name), the CSV and NetCDF groups (same command names), checking HistoryIndependent "
+                       "vlib_a, vlib_ab (prefix-related), vlib_a.sub (sub-package), vlib_c (same command name), vlib_d (a command extending vlib_c's under the same name), the CSV and NetCDF groups (same command names), checking HistoryIndependent "
                        "(each table = Ideal(libraries), duplicates fail); every history is replayed in a freshly forked process on the real registry and validated by TLC. "
                        "non-trivial = history with a Program construction preceded by another operation")
     chk.cov["exhaustive"] = False
